@@ -3,7 +3,7 @@ use super::{PropDef, ShardOut, Tier};
 use serde_json::{json, Value};
 
 pub fn write(def: &PropDef, tier: Tier, seed: u64, out: &ShardOut, wall_s: f64, violations: u64, known: &[(String, u64)], crashes: usize, extra: Value) -> Result<String, String> {
-    let path = format!("/verif/evidence/{}.json", def.id);
+    let path = format!("{}/evidence/{}.json", super::root(), def.id);
     let exhaustive = out.capped.is_empty() && crashes == 0;
     let mut coverage = json!({
         "evaluations": out.evaluations,
@@ -39,7 +39,7 @@ pub fn write(def: &PropDef, tier: Tier, seed: u64, out: &ShardOut, wall_s: f64, 
         "wall_s": wall_s,
         "violations": violations,
     });
-    let _ = std::fs::create_dir_all("/verif/evidence");
+    let _ = std::fs::create_dir_all(format!("{}/evidence", super::root()));
     let tmp = format!("{}.tmp", path);
     std::fs::write(&tmp, serde_json::to_string_pretty(&ev).unwrap()).map_err(|e| e.to_string())?;
     std::fs::rename(&tmp, &path).map_err(|e| e.to_string())?;
